@@ -177,8 +177,8 @@ def _modes_layout(model: Model, fc, T: RuleResult):
         raise AnchorError("_SolveIVP.backward.pfunc2 vanished")
     rets = [r for r in own_nodes(pf.node) if isinstance(r, ast.Return) and r.value is not None]
     lens = [len(r.value.elts) if isinstance(r.value, ast.Tuple) else 1 for r in rets]
-    if len(rets) >= 2 and len(set(lens)) == 1 and lens[0] == 4:
-        T.ok(pf.fq, "both evaluation modes return a 4-tuple (f, t, y, tensor_params)")
+    if len(rets) >= 1 and len(set(lens)) == 1 and lens[0] == 4:
+        T.ok(pf.fq, "every exit of pfunc2 returns a 4-tuple (f, t, y, tensor_params)")
     else:
         T.bad(pf, pf.node, "the two evaluation modes of pfunc2 must return the same 4-tuple layout (got %s)" % lens)
     # graph-recording mode: evaluates inside useobjparams(<copies>) with fresh clones
